@@ -74,13 +74,16 @@ def floatToIntExact? : Num → Option Int
   | .nzero => some 0
   | _ => none
 
-/-- the exponents for which `math.Ldexp` is modelled: it adds the argument's own exponent to the
-    count in Go `int` arithmetic, which wraps around next to MinInt64 (`ldexp(0.5; -2^63)` is
-    +Inf, not 0 — a quirk of the Go library, left outside the model and reported by the oracle) -/
+/-- `int(min(max(r, -4096), 4096))` of `funcLdexp`: the count is clamped as a float64 first (so
+    ±Inf and huge counts are well defined: beyond ±4096 the result saturates anyway), then
+    truncated. NaN stays NaN through Go's `min`/`max`, and `int(NaN)` is platform-defined: `none`. -/
 def ldexpCount? (r : Num) : Option Int :=
-  match floatToIntExact? r with
-  | some e => if -4611686018427387904 ≤ e ∧ e ≤ 4611686018427387904 then some e else none
-  | none => none
+  match r with
+  | .nan => none
+  | .inf neg => some (if neg then -4096 else 4096)
+  | .nzero => some 0
+  | .int z => some (if z < -4096 then -4096 else if z > 4096 then 4096 else z)
+  | .flt q => some (if q < -4096 then -4096 else if q > 4096 then 4096 else truncRat q)
 
 /-- `math.Ldexp(x, e)` -/
 def fldexp (x : Num) (e : Int) : Num :=
@@ -201,7 +204,7 @@ def mathFn1 (name : String) (x : Num) : Option Num :=
   | _ => none
 
 /-- the two-argument math functions with an exact model (`none` also where Go's `int(r)` is
-    platform-defined: ldexp with a count outside the int64 range) -/
+    platform-defined: ldexp with a NaN count) -/
 def mathFn2 (name : String) (l r : Num) : Option Num :=
   match name with
   | "copysign" => some (fcopysign l r)
